@@ -203,6 +203,8 @@ def observer_arms(d, T, validated):
             specs = ["{}", "{:>8}", "{:<6}|", "{:^7}", "{:.1}", "{:*>5}", "{:?}" if False else "{:3}"]
         elif fam == "int":
             specs = ["{}", "{:>8}", "{:+}", "{:08}", "{:<5}|", "{:^9}"]
+        elif fam == "any":
+            specs = ["{}", "{:>9}", "{:<7}|", "{:^8}"]
         else:
             specs = ["{}", "{:.1}", "{:+}", "{:10.3}", "{:08.2}", "{:e}" if False else "{:>12}"]
         pairs = ", ".join('[format!("%s", t).enc(), format!("%s", v).enc()]' % (sp, sp) for sp in specs)
